@@ -66,7 +66,7 @@ func payloadLens(thorough bool) []int {
 
 func TestCheck(t *testing.T) {
 	r := vp.New("C12", "exploration",
-		"nested loops: payload lengths x passphrases for round trip and determinism; for each ciphertext of a sub-grid every truncation length and every single-bit flip and every other passphrase; every nonce length 0..16; value keys for 4 key types x context-ID lengths 0..64; second hash over 6 hash functions; every call sequence of length <=4 over encrypt/decrypt/second-hash of 3 pairs (history determinism, results scribbled over after use); every index of 2 multihashes x subsets of 3 records through the dhash functions and DHashClient.Find, with every stored value truncated to every length. Non-trivial: everything except zero-length payload with zero-length passphrase.",
+		"nested loops: payload lengths x passphrases for round trip and determinism; for each ciphertext of a sub-grid every truncation length and every single-bit flip and every other passphrase; for every passphrase length 1..136 (thorough 1..264) every one-bit neighbour at every byte position (thorough: every bit) and the one-byte shorter / longer neighbours, through DecryptAES, DecryptValueKey and DecryptMetadata; every nonce length 0..16; value keys for 4 key types x context-ID lengths 0..64; second hash over 6 hash functions; every call sequence of length <=4 over encrypt/decrypt/second-hash of 3 pairs (history determinism, results scribbled over after use); every index of 2 multihashes x subsets of 3 records through the dhash functions and DHashClient.Find, with every stored value truncated to every length. Non-trivial: everything except zero-length payload with zero-length passphrase.",
 		"patterned payload/passphrase bytes; only single-bit flips and truncations of ciphertexts (other alterations rest on AES-GCM authentication, trusted)",
 		"the find workflow is driven through an in-memory DHStoreAPI and, for a subset, through the HTTP dhstore client and the provider cache over an in-memory network",
 	)
@@ -138,6 +138,12 @@ func TestCheck(t *testing.T) {
 			r.Violation("DecryptAES:accepted-wrong-nonce", key, fmt.Sprintf("DecryptAES with a %d-byte nonce returned data", nl), nil)
 		}
 	}
+	// 3b. passphrase neighbourhoods: decryption fails closed for every
+	// passphrase that differs in one bit at any position, or is one byte
+	// shorter or longer, at every passphrase length (value keys, which are
+	// peer ID || context ID, reach about 102 bytes; hash-input buffers of
+	// implementations tend to be multiples of 64)
+	checkNeighbours(r, thorough)
 	// 4. value keys
 	checkValueKeys(r, thorough)
 	// 5. second hash
@@ -269,6 +275,68 @@ func checkTamper(r *vp.Recorder, key string, payload []byte, p, other pass) {
 			try("other-passphrase", ct, other.b)
 		}
 		try("appended-byte", append(append([]byte(nil), ct...), 0), p.b)
+	}
+}
+
+func checkNeighbours(r *vp.Recorder, thorough bool) {
+	maxLen, bits := 136, []uint{0}
+	if thorough {
+		maxLen, bits = 264, []uint{0, 1, 2, 3, 4, 5, 6, 7}
+	}
+	payload := fixture.Bytes(24, 0x33)
+	apis := []struct {
+		name string
+		enc  func(payload, pass []byte) (blob [][]byte, err error)
+		dec  func(blob [][]byte, pass []byte) ([]byte, error)
+	}{
+		{"AES", func(pl, pw []byte) ([][]byte, error) {
+			n, c, err := dhash.EncryptAES(pl, pw)
+			return [][]byte{n, c}, err
+		}, func(b [][]byte, pw []byte) ([]byte, error) { return dhash.DecryptAES(b[0], b[1], pw) }},
+		{"ValueKey", func(pl, pw []byte) ([][]byte, error) {
+			e, err := dhash.EncryptValueKey(pl, pw)
+			return [][]byte{e}, err
+		}, func(b [][]byte, pw []byte) ([]byte, error) { return dhash.DecryptValueKey(b[0], pw) }},
+		{"Metadata", func(pl, pw []byte) ([][]byte, error) {
+			e, err := dhash.EncryptMetadata(pl, pw)
+			return [][]byte{e}, err
+		}, func(b [][]byte, pw []byte) ([]byte, error) { return dhash.DecryptMetadata(b[0], pw) }},
+	}
+	for n := 1; n <= maxLen; n++ {
+		key := fmt.Sprintf("neighbours|%d", n)
+		if !r.Mine(key) {
+			continue
+		}
+		pw := fixture.Bytes(n, 0x6b)
+		var others []pass
+		for i := 0; i < n; i++ {
+			for _, b := range bits {
+				o := append([]byte(nil), pw...)
+				o[i] ^= 1 << b
+				others = append(others, pass{fmt.Sprintf("bit %d of byte %d flipped", b, i), o})
+			}
+		}
+		others = append(others, pass{"last byte dropped", append([]byte(nil), pw[:n-1]...)}, pass{"one byte appended", append(append([]byte(nil), pw...), 0)}, pass{"one byte prepended", append([]byte{0}, pw...)})
+		for _, api := range apis {
+			var blob [][]byte
+			var err error
+			if pn, m := vp.Guard(func() { blob, err = api.enc(payload, pw) }); pn || err != nil {
+				r.Violation("Encrypt"+api.name+":error", key, fmt.Sprintf("passphrase of %d bytes: %v %s", n, err, firstLine(m)), nil)
+				continue
+			}
+			for _, o := range others {
+				r.Eval(key+"|"+api.name+"|"+o.label, true)
+				var out []byte
+				var derr error
+				pn, m := vp.Guard(func() { out, derr = api.dec(blob, o.b) })
+				switch {
+				case pn:
+					r.Violation("Decrypt"+api.name+":panic:other-passphrase", key+"|"+o.label, firstLine(m), nil)
+				case derr == nil:
+					r.Violation("Decrypt"+api.name+":accepted-other-passphrase", key+"|"+o.label, fmt.Sprintf("Decrypt%s with a %d-byte passphrase whose neighbour (%s) was used to encrypt returned data (equal to the payload: %v)", api.name, n, o.label, bytes.Equal(out, payload)), nil)
+				}
+			}
+		}
 	}
 }
 
